@@ -1,5 +1,5 @@
 """C12 - schedulers are work-conserving, non-preemptive, rate-exact, per-flow FIFO"""
-from . import sched as S, resources as R, elements, keydomains
+from . import sched as S, resources as R, elements, keydomains, deps
 
 def check(ctx):
     S.run_tables(ctx, 'C12', [k[:2] for k in S.SPECS])
@@ -11,6 +11,7 @@ def check(ctx):
     keydomains.check(ctx, 'C12')
     elements.spawn_sites(ctx, 'C12', only=('SP', 'WFQ', 'VC', 'DRR', 'RR', 'WRR', 'Monitor'))
     elements.class_method_sets(ctx, 'C12', only=('Scheduler', 'MultiQueueScheduler', 'SP', 'WFQ', 'VC', 'DRR', 'RR', 'WRR', 'Monitor'))
+    deps.element_layers(ctx, 'C12')
     return ('Static: Scheduler.send_packet (one timeout 8*size/rate, counters released under the same key as the '
             'increments, one forward, in-service cleared), MultiQueueScheduler.put (wake-up token iff empty on entry) and '
             'every scheduler\'s put/run and Monitor.run compared with reference tables; every use of send_packet is '
